@@ -3,6 +3,7 @@ package mon
 import (
 	"crypto/sha256"
 	"encoding/base64"
+	"errors"
 	"fmt"
 	"net/url"
 	"regexp"
@@ -75,7 +76,7 @@ func C03(c *run.Ctx) {
 	if !c.Quick() {
 		maxLen = 4
 	}
-	alphabet := []string{"V", "wrong", "none", "downgrade", "oddgrant"}
+	alphabet := []string{"V", "wrong", "none", "downgrade", "oddgrant", "faulted"}
 	var seqs [][]string
 	var gen func(cur []string)
 	gen = func(cur []string) {
@@ -197,14 +198,30 @@ func C03(c *run.Ctx) {
 					}
 				}
 				form := url.Values{"grant_type": {"authorization_code"}, "code": {code}, "redirect_uri": {sp.RedirectURIs[0]}}
-				if att != "none" && att != "oddgrant" {
+				if att != "none" && att != "oddgrant" && att != "faulted" {
 					form.Set("code_verifier", verifier)
+				}
+				if att == "faulted" {
+					// no verifier, and the store cannot answer the lookup of the challenge (a transient failure, not "not found")
+					fault := []error{fosite.ErrSerializationFailure, errors.New("injected: connection reset"), fosite.ErrServerError}[(ai+si+qi)%3]
+					// half of the time only the first lookup fails (a transient fault), otherwise every lookup of the request
+					first := (ai+si+qi)%2 == 0
+					w.Store.Pre = func(cl *world.Call) error {
+						if cl.Method == "GetPKCERequestSession" {
+							if first {
+								w.Store.Pre = nil
+							}
+							return fault
+						}
+						return nil
+					}
 				}
 				if att == "oddgrant" {
 					// no verifier and an unusual spelling of the grant type: handlers must not disagree on who is responsible
 					form.Set("grant_type", []string{"authorization_code authorization_code", "Authorization_Code", "AUTHORIZATION_CODE", "authorization_code refresh_token", " authorization_code"}[(ai+si+qi)%5])
 				}
 				out := w.Token(form, auth)
+				w.Store.Pre = nil
 				ok := out.Err == nil && out.S("access_token") != ""
 				may := true
 				unspecified := false
